@@ -1,6 +1,6 @@
 import logging
 
-from .util import Location, cached_property, context_property
+from .util import Location, cached_property, context_property, Partial, partial_answer
 from .compat import iteritems
 
 if False:
@@ -361,6 +361,7 @@ class MultiValue(Object):
         # type: (EvalCtx) -> AttrList
         result: set[str] = set()
         if self._visiting:
+            partial_answer()
             return result
         self._visiting = True
         try:
@@ -373,6 +374,7 @@ class MultiValue(Object):
     def get_attr(self, ctx, name):
         # type: (EvalCtx, str) -> Object | Name | None
         if self._visiting:
+            partial_answer()
             return None
         self._visiting = True
         try:
@@ -409,17 +411,53 @@ class ClassObject(Object, Callable):
             result.extend(v for v in values if isinstance(v, (ClassObject, RuntimeName)))
         return result
 
+    def _building(self, what):
+        # type: (str) -> bool
+        """True when table ``what`` of this object is already being computed
+        (an inheritance cycle): the caller answers with an empty, partial table"""
+        building = self.__dict__.setdefault('_tables_building', set())
+        if what in building:
+            partial_answer()
+            return True
+        building.add(what)
+        return False
+
     @cached_property
+    def _static_attrs(self):
+        # type: () -> Attributes
+        """Names bound in the class bodies along the bases: no attribute assignments"""
+        if self._building('static'):
+            return {}
+        try:
+            attrs = {}  # type: Attributes
+            for b in reversed(self.bases):
+                attrs.update(getattr(b, '_static_attrs', None) or b._attrs)
+            attrs.update(self._cls_attrs)
+            return attrs
+        finally:
+            self.__dict__['_tables_building'].discard('static')
+
+    @cached_property
+    def _full_attrs(self):
+        # type: () -> Attributes
+        if self._building('full'):
+            return {}
+        try:
+            attrs = {}  # type: Attributes
+            for b in reversed(self.bases):
+                attrs.update(b._attrs)
+            attrs.update(self.scope.top.assigns(self.ctx).get(self, {}))
+            attrs.update(self._cls_attrs)
+            return attrs
+        finally:
+            self.__dict__['_tables_building'].discard('full')
+
+    @property
     def _attrs(self):
         # type: () -> Attributes
-        # an inheritance cycle ends here: re-entrant lookups see an empty table
-        self.__dict__['_attrs'] = {}
-        attrs = {}
-        for b in reversed(self.bases):
-            attrs.update(b._attrs)
-        attrs.update(self.scope.top.assigns(self.ctx).get(self, {}))
-        attrs.update(self._cls_attrs)
-        return attrs
+        if Partial.static:
+            return self._static_attrs
+        return self._full_attrs
 
     @context_property
     def call(self, ctx):
@@ -456,24 +494,39 @@ class InstanceValue(Object):
         # type: () -> Attributes
         """Attributes assigned through an instance (self.x = ...) in the
         class or in any of its bases; never class-level attributes."""
-        # an inheritance cycle ends here: re-entrant lookups see an empty table
-        self.__dict__['_instance_attrs'] = {}
-        attrs = {}  # type: Attributes
-        for b in reversed(self.cls.bases):
-            o = b.call(self.ctx)
-            if isinstance(o, InstanceValue):
-                attrs.update(o._instance_attrs)
-            elif isinstance(o, RuntimeName) and hasattr(o.value, '__dict__'):
-                attrs.update(o._attrs)
-        attrs.update(self.cls.scope.top.assigns(self.ctx).get(self, {}))
-        return attrs
+        building = self.__dict__.setdefault('_tables_building', set())
+        if 'instance' in building:
+            # an inheritance cycle ends here
+            partial_answer()
+            return {}
+        building.add('instance')
+        try:
+            attrs = {}  # type: Attributes
+            for b in reversed(self.cls.bases):
+                o = b.call(self.ctx)
+                if isinstance(o, InstanceValue):
+                    attrs.update(o._instance_attrs)
+                elif isinstance(o, RuntimeName) and hasattr(o.value, '__dict__'):
+                    attrs.update(o._attrs)
+            attrs.update(self.cls.scope.top.assigns(self.ctx).get(self, {}))
+            return attrs
+        finally:
+            building.discard('instance')
 
     @cached_property
-    def _attrs(self):
+    def _full_attrs(self):
         # type: () -> Attributes
         attrs = self.cls._attrs.copy()
         attrs.update(self._instance_attrs)
         return attrs
+
+    @property
+    def _attrs(self):
+        # type: () -> Attributes
+        if Partial.static:
+            # attribute assignments are being collected: class bodies only
+            return self.cls._static_attrs
+        return self._full_attrs
 
 
 class AttrObject(Object):
